@@ -26,7 +26,7 @@ ADDENDA = {
  "C12": "Also decides field routing for passwords: every Kdf field is stored in, and read back from, the same field (writer then reader is the identity on fields); and that the OAuth2 session set's derived resource-server filter is only ever accumulated (|=) by its decoders and mutators.",
  "C13": "Also decides that the RUV delta functions consult the cleared-in-this-transaction marker that restore() sets.",
  "C15": "Also decides that the schema check's exemption for class conflict is only usable on recycled entries (conflict added with recycled, removed with it), and that every write path refreshes the cached schema.",
- "C16": "Also decides that no ValueSetT::remove removes references inside the closure of a short-circuiting iterator adapter. Also decides that post_repl_incremental's liveness tests treat recycled and tombstoned alike (mask_recycled_ts on both images).",
+ "C16": "Also decides that no ValueSetT::remove removes references inside the closure of a short-circuiting iterator adapter. Also decides that post_repl_incremental's liveness tests treat recycled and tombstoned alike (mask_recycled_ts on both images). Also decides that the plugin's existence test holds per referenced uuid (today it does not: known finding F18).",
  "C17": "Also decides that the leaf write-back change test compares every attribute the plugin recomputed.",
  "C18": "Also decides that apply_dyngroup_change overwrites the cached filter of every dynamic group it processes.",
  "C20": "Also rejects any arm (guarded or not) that takes an attribute-bearing Modify variant past the uuid test.",
